@@ -1,16 +1,24 @@
 /-
-  Drivers/Sem — line driver for the reference semantics (ExoModel.Sem) over exact rationals.
-  request : {"op":"exec","proc":<proc>,"inputs":[<input>...]}
-  input   : {"args":[{"c":n} | {"v":{"buf":k,"off":o,"dims":[[ext,stride]..]}} ...],
-             "heap":[[rat|null..]..], "cfg":[[cfg,field,"c"|"d",value]..]}
-  answer  : {"results":[{"ok":{"heap":..,"cfg":..}} | {"err":e} | {"invalid":e}]}
+  Drivers/C01Storage — line driver for correspondence A of the storage-related rewrites
+  (ExoModel.RwCheckStorage over ExoModel.RewriteStorage).
+  request : {"op":"rwcheck_storage","before":<proc>,"after":<proc>,"name":<string>,
+             "path":[["body"|"orelse",k]..],"k":<nat>,"flag":<bool>}
+  answer  : {"match":true} | {"match":false,"why":<string>} | {"bad":<string>}
 -/
 import ExoModel.Wire
-import ExoModel.RwCheck
-import ExoModel.AlphaEq
 import ExoModel.RwCheckStorage
-import ExoModel.Wf
+import ExoModel.FootprintAt
 open Lean Exo Exo.Wire
+
+/-!
+  second op (tie B for `Check_ReorderStmts`):
+  request : {"op":"commute","proc":<proc>,"path":[["body"|"orelse",k]..],"inputs":[<input>..]}
+            (`path` addresses the FIRST of the two adjacent statements; inputs as for op `exec`
+             of Drivers/Sem.lean)
+  answer  : {"results":[{"visits":n,"commuting":m,"nodefs":bool} | {"invalid":e} | {"bad":e}]}
+            n = number of dynamic visits of the pair, m = number of those visits in which
+            `Fp.commuteAt` holds for the two statements
+-/
 
 instance : DataAlg Rat where
   ofRat n d := (n : Rat) / (d : Rat)
@@ -20,7 +28,6 @@ instance : DataAlg Rat where
   div := (· / ·)
   neg := (- ·)
 
-/-- fixed interpretation of extern functions (any fixed one will do: theorems quantify over it) -/
 def extRat (f : String) (xs : List Rat) : Rat :=
   match f, xs with
   | "relu", [x] => if x > 0 then x else 0
@@ -57,35 +64,21 @@ def parseInput (p : Proc) (j : Json) : P (State Rat) := do
     | .error _ => views := (fa.name, ← parseView (← fld a "v")) :: views
   pure { env := env, views := views, heap := heap, cfg := cfg }
 
-def checkCtrlArgs (σ : State Rat) : List FnArg → Except Err Unit
-  | [] => pure ()
-  | ⟨x, .ctrl .size⟩ :: r => match lookupSym x σ.env with
-      | some v => if v ≤ 0 then throw .nonPosSize else checkCtrlArgs σ r
-      | none => throw .scope
-  | _ :: r => checkCtrlArgs σ r
-
-def cfgToJson (c : List ((String × String) × CfgVal Rat)) : Json :=
-  .arr (c.map (fun (k, v) => match v with
-    | .ctrl n => Json.arr #[.str k.1, .str k.2, .str "c", toJson n]
-    | .data d => Json.arr #[.str k.1, .str k.2, .str "d", ratToJson d])).toArray
-
-def runOne (p : Proc) (j : Json) : Json :=
+def commuteOne (p : Proc) (path : Exo.Rw.Path) (j : Json) : Json :=
   match parseInput p j with
   | .error e => Json.mkObj [("bad", .str e)]
   | .ok σ =>
     let valid : Except Err Unit := do
-      checkCtrlArgs σ p.args
       checkShapes σ p.args
       checkPreds σ p.preds
       if !noAlias σ.views then throw .alias
     match valid with
     | .error e => Json.mkObj [("invalid", .str (toString e))]
     | .ok _ =>
-      match execB extRat p.body σ with
-      | .error e => Json.mkObj [("err", .str (toString e))]
-      | .ok σ' => Json.mkObj [("ok", Json.mkObj [
-          ("heap", .arr (σ'.heap.map (fun b => Json.arr (b.map ratToJson).toArray)).toArray),
-          ("cfg", cfgToJson σ'.cfg)])]
+      match Exo.Fp.commuteAtPath extRat path p.body σ with
+      | none => Json.mkObj [("bad", .str "path does not address two adjacent statements")]
+      | some (n, m, nd) =>
+        Json.mkObj [("visits", toJson n), ("commuting", toJson m), ("nodefs", .bool nd)]
 
 def handle (line : String) : Json :=
   match Json.parse line with
@@ -94,31 +87,35 @@ def handle (line : String) : Json :=
     match (do
       let op ← str (← fld j "op")
       match op with
-      | "exec" => do
-          let p ← proc (← fld j "proc")
-          let ins ← arr (← fld j "inputs")
-          pure (Json.mkObj [("results", .arr (ins.map (runOne p)))])
-      | "wf" => do
-          let p ← proc (← fld j "proc")
-          pure (Json.mkObj [("wf", .bool (Exo.Wf.wfP p))])
-      | "rwcheck" => do
+      | "rwcheck_storage" => do
           let before ← proc (← fld j "before")
           let after ← proc (← fld j "after")
           let name ← str (← fld j "name")
-          let path ← (← arr (← fld j "path")).toList.mapM (fun st => do
+          -- expression steps (`rhs`, `lhs`, `arg`, `idx k`, `args k`: the tail of a bind_expr
+          -- path of the stream) are dropped: only the statement address is used
+          let steps ← (← arr (← fld j "path")).toList.mapM (fun st => do
             let a ← arr st
-            let k ← nat a[1]!
             match ← str a[0]! with
-            | "body" => pure (Exo.Rw.Step.body k)
-            | "orelse" => pure (Exo.Rw.Step.orelse k)
+            | "body" => pure (some (Exo.Rw.Step.body (← nat a[1]!)))
+            | "orelse" => pure (some (Exo.Rw.Step.orelse (← nat a[1]!)))
+            | "rhs" | "lhs" | "arg" | "idx" | "args" => pure none
             | t => throw s!"bad path step {t}")
+          let path := (steps.takeWhile Option.isSome).filterMap id
           let k ← nat (← fld j "k")
           let flag ← Wire.bool (← fld j "flag")
-          let storage := ["lift_alloc", "sink_alloc", "delete_buffer", "delete_pass", "expand_dim", "bind_expr"]
-          match (if storage.contains name then Exo.Rw.checkStorage name path k flag before.body after.body
-                 else Exo.Rw.check' name path k flag before.body after.body) with
+          match Exo.Rw.checkStorage name path k flag before.body after.body with
           | .ok _ => pure (Json.mkObj [("match", .bool true)])
           | .error e => pure (Json.mkObj [("match", .bool false), ("why", .str e)])
+      | "commute" => do
+          let p ← proc (← fld j "proc")
+          let path ← (← arr (← fld j "path")).toList.mapM (fun st => do
+            let a ← arr st
+            match ← str a[0]! with
+            | "body" => pure (Exo.Rw.Step.body (← nat a[1]!))
+            | "orelse" => pure (Exo.Rw.Step.orelse (← nat a[1]!))
+            | t => throw s!"bad path step {t}")
+          let ins ← arr (← fld j "inputs")
+          pure (Json.mkObj [("results", .arr (ins.map (commuteOne p path)))])
       | _ => throw s!"unknown op {op}" : P Json) with
     | .ok r => r
     | .error e => Json.mkObj [("bad", .str e)]
